@@ -40,7 +40,7 @@ func init() {
 			"whose matchers all say no without reading), PRF streams with random segmentation, an Accept consumer with scripted pacing " +
 			"(immediate / slower than arrival / stops), and a scripted close instant. every sixth run is followed by a two-listener run (one wrapper instance wraps two listeners: each connection must come out of its own listener's Accept, closing one leaves the other serving). oracle: each B/C connection is returned by Accept exactly once and reads the client's stream from the first " +
 			"unconsumed byte (TLS: plaintext + ConnectionState) with no read deadline left armed by matching; A/D are never returned and are closed; a connection pending at Close is either returned once or closed, never both/neither; " +
-			"after Close Accept returns net.ErrClosed and no goroutine remains in layer4.(*listener). non-trivial = >=1 fall-through connection accepted; distinct = hash(order signature of arrive/accept/close events)",
+			"after Close Accept returns net.ErrClosed and no goroutine remains in layer4.(*listener). non-trivial = >=1 fall-through connection accepted; distinct = hash(order signature of arrive/accept/close events). classes Q (v1 PROXY UNKNOWN header) and V (v2 header) fall through like P; in half of the runs the tls route is the first route, so the matchers of the other routes look at the plaintext before the connection falls through.",
 		Assumptions: []string{
 			"scripted transport; the consumer reads each accepted connection to EOF on its own goroutine",
 			"matching timeouts are 150-350 ms: a fall-through connection that layer4 dropped at its deadline while the scheduler canary shows stalls above an eighth of the timeout is counted as inconclusive (starved client), not as lost",
